@@ -149,6 +149,24 @@ pub fn build_input(family: &str, d: usize) -> Vec<u8> {
                 v.truncate(v.len().saturating_sub(n));
             }
         }
+        "reference-doubling" | "reference-doubling-objects" => {
+            // AMF0 references (marker 07 + u16 index; unsupported today): container k consists of two references to
+            // container k-1 - a decoder that resolves references by copying doubles its output every 11 bytes
+            let obj = family.ends_with("objects");
+            if obj {
+                v.extend_from_slice(&[3, 0, 1, b'a', 5, 0, 0, 9]);
+            } else {
+                v.extend_from_slice(&[10, 0, 0, 0, 1, 5]);
+            }
+            for k in 0..d {
+                let idx = (k as u16).to_be_bytes();
+                if obj {
+                    v.extend_from_slice(&[3, 0, 1, b'a', 7, idx[0], idx[1], 0, 1, b'b', 7, idx[0], idx[1], 0, 0, 9]);
+                } else {
+                    v.extend_from_slice(&[10, 0, 0, 0, 2, 7, idx[0], idx[1], 7, idx[0], idx[1]]);
+                }
+            }
+        }
         "ecma-numeric-key" | "object-numeric-key" | "ecma-numeric-keys-descending" => {
             // keys that read as array indices: a decoder that "completes" sparse arrays allocates by VALUE of a key
             let marker_and_count: Vec<u8> = if family.starts_with("ecma") { vec![8, 0, 0, 0, 1] } else { vec![3] };
@@ -219,6 +237,8 @@ fn token_grammar(run: &Run, maxtok: usize) -> u64 {
         vec![8, 0, 0, 0, 9], vec![8, 0xFF, 0xFF, 0xFF, 0xFF], vec![10, 0, 0, 0, 2], vec![10, 0xFF, 0xFF, 0xFF, 0xFF], vec![9], vec![0, 0], vec![4], vec![10],
         // strings and names made of NUL bytes, a numeric name
         vec![2, 0, 1, 0], vec![2, 0, 3, 0, 0, 0], vec![0, 1, 0], vec![0, 2, b'1', b'7'],
+        // references to the first and second container
+        vec![7, 0, 0], vec![7, 0, 1],
     ];
     let total: u64 = (1..=maxtok as u32).map(|l| (toks.len() as u64).pow(l)).sum();
     let n = AtomicU64::new(0);
@@ -248,6 +268,29 @@ fn token_grammar(run: &Run, maxtok: usize) -> u64 {
             Ok(_) => {
                 if peak > 256 * input.len() + 128 * 1024 {
                     run.violation("C14/memory/token-grammar", &format!("peak allocation {} bytes for a {}-byte input {}", peak, input.len(), crate::util::hex(&input)), json!({"bytes": crate::util::hex(&input)}));
+                }
+            }
+        }
+        // the same bytes as the body of an AMF-carrying RTMP message (short inputs: with and without the leading format byte)
+        if input.len() <= 24 {
+            for t in [15u8, 17, 18, 20] {
+                for lead in [false, true] {
+                    let mut body: Vec<u8> = if lead { vec![0] } else { vec![] };
+                    body.extend_from_slice(&input);
+                    let p = rml_rtmp::messages::MessagePayload { timestamp: rml_rtmp::time::RtmpTimestamp::new(0), type_id: t, message_stream_id: 1, data: bytes::Bytes::from(body.clone()) };
+                    crate::watchdog::enter("token-grammar input as a message body", json!({"type_id": t, "body": crate::util::hex(&body)}));
+                    let base = alloc::begin();
+                    let r = guarded(|| p.to_rtmp_message().is_ok());
+                    let peak = alloc::peak_since(base);
+                    crate::watchdog::leave();
+                    match r {
+                        Err(pn) => run.violation("C14/panic/message-body", &format!("{} on a type {} message with body {}", pn, t, crate::util::hex(&body)), json!({"type_id": t, "body": crate::util::hex(&body)})),
+                        Ok(_) => {
+                            if peak > 256 * body.len() + 128 * 1024 {
+                                run.violation("C14/memory/message-body", &format!("peak allocation {} bytes for a {}-byte type {} body {}", peak, body.len(), t, crate::util::hex(&body)), json!({"type_id": t, "body": crate::util::hex(&body)}));
+                            }
+                        }
+                    }
                 }
             }
         }
@@ -304,6 +347,11 @@ pub fn run(run: &Run) {
             for d in ladder {
                 cases.push((format!("nest:{}:{}", p, b), d, 2048));
             }
+        }
+    }
+    for fam in ["reference-doubling", "reference-doubling-objects"] {
+        for d in [1usize, 2, 8, 16, 24, 30, 40, 64, 200, 5000] {
+            cases.push((fam.to_string(), d, 2048));
         }
     }
     for fam in ["ecma-numeric-key", "object-numeric-key", "ecma-numeric-keys-descending"] {
@@ -382,7 +430,7 @@ pub fn run(run: &Run) {
     let total = cases.len() as u64 + g;
     run.set("evaluations", json!(total));
     run.set("distinct_nontrivial", json!(total));
-    run.set("rule", json!("child-process cases: (family, depth or count on the ladder 1,10,100,... up to 16 MiB / unit plus rungs around 128/256/1000/5000/20000/50000, stack size); mixed nests nest:<prefix>:<body> (prefix of 1-3 containers of one kind above a run of another kind or of a repeating pattern) at rungs around 128/256 and deep; in-process: every sequence of <= 4 (quick) / 5 (thorough) tokens of a 21-token AMF0 grammar; all distinct"));
+    run.set("rule", json!("child-process cases: (family, depth or count on the ladder 1,10,100,... up to 16 MiB / unit plus rungs around 128/256/1000/5000/20000/50000, stack size); mixed nests nest:<prefix>:<body> (prefix of 1-3 containers of one kind above a run of another kind or of a repeating pattern) at rungs around 128/256 and deep; in-process: every sequence of <= 4 (quick) / 5 (thorough) tokens of a 23-token AMF0 grammar; each input also as the body of a type 15, 17, 18 and 20 RTMP message through MessagePayload::to_rtmp_message (the other AMF0 entry point); all distinct"));
     run.set("exhaustive", json!(false));
     run.set("stack_sizes_kib", json!(stacks));
     run.set("max_input_bytes", json!(max_len));
